@@ -95,13 +95,14 @@ CLAIMED["C02"] = dict(
               "property of the BinaryHeap replica, exact Viterbi steps of the forward pass, suffix-cover invariant of the loop) + "
               "exhaustive path enumeration oracle on the implementation's own lattice and scores + exact list equality model vs "
               "implementation",
-    text="C02 / C02_best_first_optimal: for every input, well-formed dictionary, context, counts and n >= 1, whenever the loop ends "
-         "by itself the list has at most n entries with pairwise different texts, is in non-increasing order of path score, and "
+    text="C02_full (= C02_statement): for every input, well-formed dictionary, context, counts and n >= 1 the while-let loop ends by "
+         "itself from some number of iterations on (the total weight of the heap decreases with every iteration), always with the "
+         "same list, which has at most n entries with pairwise different texts, is in non-increasing order of path score, and "
          "every connectable bos-to-eos path either has its text in the list or the list has n entries none scoring less; "
          "C02_forward_step_*, C02_is_connectable_path, C02_deterministic as before. The five conjuncts are also checked against "
          "exhaustive enumeration of every connectable path of the implementation's lattice for every generated case.",
-    note="PARTIAL: termination of the while-let loop (C02_statement: some fuel suffices) is not proved in the model; it is observed "
-         "on every generated case (lattices above 20000 paths are skipped and counted). " + KKC_NOTE, design="5/C02")
+    note="Proved at full strength on the model, termination included. The enumeration oracle skips (and counts) lattices above "
+         "20000 paths. " + KKC_NOTE, design="5/C02")
 CLAIMED["C03"] = dict(
     engine="lean+corr_kkc+corr_trie",
     technique="Lean 4 lemmas on dictionary look-up soundness in the lattice model + differential run with real tries + oracle: "
